@@ -310,6 +310,24 @@ def run(P, R, tier):
     R.floor('C11.j', 'projection lists derived from `columns`', nproj, 1)
     from rules import common as _cm
     _cm.array_token(P, R, 'C11.k')
+    _cm.read_path_not_memoised(P, R, 'C11.e')
+    # every path the caller's glob matches is read, except metadata files: the filter of the glob expansion may only EXCLUDE names (the `_metadata` family); a
+    # filter that keeps a list of known extensions drops datasets and files that are named differently (`tiles_2020`, `data.pq`), silently
+    ep = P.mods['spatialpandas.io.parquet'].funcs.get('_expand_path')
+    nflt = 0
+    if ep is not None:
+        for lc in [x for x in walk_own(ep.node) if isinstance(x, (ast.ListComp, ast.GeneratorExp)) and len(x.generators) == 1 and x.generators[0].ifs]:
+            for t_ in lc.generators[0].ifs:
+                nflt += 1
+                neg = (isinstance(t_, ast.Compare) and len(t_.ops) == 1 and isinstance(t_.ops[0], (ast.NotIn, ast.NotEq))) or (isinstance(t_, ast.UnaryOp) and isinstance(t_.op, ast.Not))
+                about_meta = '_metadata' in norm(astq.expand(ep, t_)) or any('_metadata' in (astq.const_str(v_) or '') for nm_ in astq.names_in(t_)
+                                                                            for r_ in [P.resolve_global(ep.mod, nm_)] if r_ and r_[0] == 'assign'
+                                                                            for v_ in ast.walk(r_[2]) if isinstance(v_, ast.Constant))
+                R.check(neg and about_meta, 'C11.e', ep, t_, 'the glob expansion only excludes metadata files',
+                        f'`{norm(t_)[:80]}` keeps the matches that look like data files instead of excluding the metadata files: datasets and files the caller\'s glob matched under any other '
+                        'name are dropped without a word', construct='_expand_path filter excludes only')
+        R.floor('C11.e', 'filters of the glob expansion', nflt, 1)
+    _cm.task_names(P, R, 'C11.d', [pr] + list(pr.nested.values()), 'partitions of one dataset are filled with the rows of another')
     # no global re-sort of the combined list afterwards
     plist = None
     for lp in astq.own_nodes(pr, ast.For):
